@@ -90,3 +90,21 @@ func WriteConsensusValidatorsInfo(db kaidb.KeyValueWriter, hash common.Hash, val
 func DeleteConsensusValidatorsInfo(db kaidb.KeyValueWriter, hash common.Hash) error {
 	return db.Delete(calcConsensusValidatorsInfoKey(hash))
 }
+
+// ReadConsensusPriorities returns the encoded proposer priorities saved with the consensus state of a height
+// (nil if there is none, e.g. in databases written by older versions).
+func ReadConsensusPriorities(db kaidb.Reader, height uint64) []byte {
+	buf, err := db.Get(calcConsensusPrioritiesKey(height))
+	if err != nil || len(buf) == 0 {
+		return nil
+	}
+	return buf
+}
+
+func WriteConsensusPriorities(db kaidb.KeyValueWriter, height uint64, enc []byte) error {
+	return db.Put(calcConsensusPrioritiesKey(height), enc)
+}
+
+func DeleteConsensusPriorities(db kaidb.KeyValueWriter, height uint64) error {
+	return db.Delete(calcConsensusPrioritiesKey(height))
+}
